@@ -26,23 +26,45 @@ def check_sign_parity(prog: Program, res: Result, prop: str) -> dict:
                             f"_fcn under {tt} evaluates to sign {f['signs'][tt]} of self._task.solve(x), expected "
                             f"{'+' if exp[tt] > 0 else '-'} ({f['why'][tt]}): internal costs are no longer 'always minimised'"))
     out = {"fcn": f}
-    for owner, nested in ((f"{PKG}.models.Population", "refine_agent"),
-                          (f"{PKG}.models.OptimizationResult", "refine_best_solution")):
-        r = refine_signs(prog, owner, nested)
-        out[nested] = r
-        g = r["func"]
-        for tt in (MIN, MAX):
-            ok = r["signs"][tt] == exp[tt]
-            res.ob(ok, f"{g.loc()} {nested} under {tt}: sign {r['signs'][tt]}", f"{nested}:{tt}")
-            if not ok:
-                res.add(Finding(prop, f"{prop}.SGN-restore", construct_key(prog, g.node, g.module) + f"::{tt}", g.loc(),
-                                f"{nested} under {tt} yields sign {r['signs'][tt]} of the internal cost, expected "
-                                f"{'+' if exp[tt] > 0 else '-'} ({r['why'][tt]}): reported costs are not in the user's sign"))
-        res.ob(not r["inplace"], None, f"{nested}:inplace")
-        if r["inplace"]:
-            res.add(Finding(prop, f"{prop}.SGN-restore-by-copy", construct_key(prog, g.node, g.module) + "::inplace", g.loc(),
-                            f"{nested} mutates the agent it is given: live agents would change sign"))
+    # restoration of best_solution in OptimizationResult.__init__ (the Population side is checked by check_packaging)
+    from .sgn import agent_value_sign
+    init = prog.func(f"{PKG}.models.OptimizationResult.__init__")
+    stores = [n for n in own_nodes(init) if isinstance(n, ast.Assign) and len(n.targets) == 1
+              and isinstance(n.targets[0], ast.Subscript) and dotted(n.targets[0].value) == "kwargs"
+              and isinstance(n.targets[0].slice, ast.Constant) and n.targets[0].slice.value == "best_solution"]
+    dir_names = _direction_names(init)
+    for tt in (MIN, MAX):
+        if len(stores) != 1:
+            sign, by_copy, why = (+1, True, "") if not stores else (None, False, "several stores of kwargs['best_solution']")
+            if not stores:
+                sign, why = +1, "best_solution is passed through unchanged"
+        else:
+            sign, by_copy, why = agent_value_sign(prog, init.node, init.module, stores[0].value,
+                                                  lambda z: _kwargs_take(origin(init.node, z) if isinstance(z, ast.Name) else z, "best_solution"),
+                                                  dir_names, tt)
+        ok = sign == exp[tt]
+        res.ob(ok, f"{init.loc()} best_solution under {tt}: sign {sign}", f"refine_best_solution:{tt}")
+        if not ok:
+            res.add(Finding(prop, f"{prop}.SGN-restore", f"models.OptimizationResult.__init__::restore::{tt}", init.loc(),
+                            f"best_solution under {tt} is reported with cost sign {sign}, expected {'+' if exp[tt] > 0 else '-'} "
+                            f"({why}): reported costs are not in the user's sign"))
+        elif not by_copy:
+            res.ob(False)
+            res.add(Finding(prop, f"{prop}.SGN-restore-by-copy", "models.OptimizationResult.__init__::inplace", init.loc(),
+                            f"the sign of best_solution is restored in place ({why}): the live best agent changes sign"))
     return out
+
+
+def _direction_names(init) -> set:
+    names = set()
+    for n in own_nodes(init):
+        if isinstance(n, (ast.Assign, ast.AnnAssign)):
+            t = n.targets[0] if isinstance(n, ast.Assign) and len(n.targets) == 1 else getattr(n, "target", None)
+            if isinstance(t, ast.Name) and n.value is not None and _kwargs_take(n.value, "task_type"):
+                dflt = n.value.args[1] if isinstance(n.value, ast.Call) and len(n.value.args) > 1 else None
+                if dflt is not None and dotted(dflt) == "TaskType.MIN":
+                    names.add(t.id)
+    return names
 
 
 def _kwargs_get(e: ast.AST, key: str) -> bool:
@@ -84,12 +106,7 @@ def population_agents_semantics(prog: Program) -> dict:
             out[tt] = (None, False, "the value stored as `agents` was not found")
         return out
     # direction variable
-    dir_names = set()
-    for n in own_nodes(init):
-        if isinstance(n, ast.Assign) and len(n.targets) == 1 and isinstance(n.targets[0], ast.Name) and _kwargs_take(n.value, "task_type"):
-            dflt = n.value.args[1] if isinstance(n.value, ast.Call) and len(n.value.args) > 1 else None
-            if dflt is not None and dotted(dflt) == "TaskType.MIN":
-                dir_names.add(n.targets[0].id)
+    dir_names = _direction_names(init)
     for tt in (MIN, MAX):
         try:
             e = eval_expr(origin(init.node, expr), dir_names, tt)
@@ -101,20 +118,16 @@ def population_agents_semantics(prog: Program) -> dict:
             out[tt] = (None, False, f"`{norm(e.test)}` decides what is recorded")
             continue
         if _kwargs_take(e, "agents"):
-            out[tt] = ("identity", always_fresh, "")
+            out[tt] = (("sign", +1, True), always_fresh, "")
             continue
         if isinstance(e, ast.ListComp) and len(e.generators) == 1 and not e.generators[0].ifs \
                 and isinstance(e.generators[0].target, ast.Name) and _kwargs_take(origin(init.node, e.generators[0].iter), "agents"):
             a = e.generators[0].target.id
             el = e.elt
-            if isinstance(el, ast.Name) and el.id == a:
-                out[tt] = ("identity", True, "")
-                continue
-            if isinstance(el, ast.Call) and isinstance(el.func, ast.Name) and el.func.id == "refine_agent" and len(el.args) == 2 \
-                    and isinstance(el.args[0], ast.Name) and el.args[0].id == a and isinstance(el.args[1], ast.Name) and el.args[1].id in dir_names:
-                out[tt] = ("refined", True, "")
-                continue
-            out[tt] = (None, True, f"elements are `{norm(el, 60)}`")
+            from .sgn import agent_value_sign
+            sign, by_copy, why = agent_value_sign(prog, init.node, init.module, el, lambda z: isinstance(z, ast.Name) and z.id == a,
+                                                  dir_names, tt)
+            out[tt] = (("sign", sign, by_copy), True, why)
             continue
         out[tt] = (None, False, f"agents are `{norm(e, 70)}`")
     return out
@@ -128,17 +141,16 @@ def check_packaging(prog: Program, res: Result, prop: str, need_fresh: bool = Fa
     from .sgn import MAX, MIN
     sem = population_agents_semantics(prog)
     init = sem["init"]
-    rs = refine_signs(prog, f"{PKG}.models.Population", "refine_agent")
     for tt in (MIN, MAX):
         kind, fresh, why = sem[tt]
-        sign = None
-        if kind == "identity":
-            sign = +1
-        elif kind == "refined":
-            sign = rs["signs"][tt]
+        sign, by_copy = (kind[1], kind[2]) if isinstance(kind, tuple) else (None, True)
         want = +1 if tt == MIN else -1
         ok = sign == want
-        res.ob(ok, f"{init.loc()} Population under {tt}: agents {kind} (sign {sign}), fresh list={fresh}", f"Population.__init__:{tt}")
+        res.ob(ok, f"{init.loc()} Population under {tt}: agent cost sign {sign}, fresh list={fresh}", f"Population.__init__:{tt}")
+        if ok and not by_copy:
+            res.ob(False)
+            res.add(Finding(prop, f"{prop}.SGN-restore-by-copy", f"models.Population.__init__::inplace::{tt}", init.loc(),
+                            f"under {tt} the sign of recorded agents is restored in place ({why}): live agents change sign"))
         if not ok:
             res.add(Finding(prop, f"{prop}.PKG-population", f"models.Population.__init__::refine::{tt}", init.loc(),
                             f"under {tt} a recorded generation holds its agents with cost sign {sign} (expected "
@@ -150,31 +162,28 @@ def check_packaging(prog: Program, res: Result, prop: str, need_fresh: bool = Fa
                                 f"under {tt} a recorded generation stores the caller's list object itself: optimizers that extend, "
                                 f"pop or assign slots of self._population in place rewrite generations that were already recorded"))
 
-    # OptimizationResult
+    # OptimizationResult: the (sign-checked, see check_sign_parity) restoration of best_solution is applied whenever a best
+    # solution is given: the store may be guarded by `best_solution is not None` only, and super().__init__(**kwargs) follows
     init = prog.func(f"{PKG}.models.OptimizationResult.__init__")
-    ok, why = False, "best_solution is not replaced by refine_best_solution(best_solution, task_type)"
     stores = [n for n in own_nodes(init) if isinstance(n, ast.Assign) and len(n.targets) == 1
               and isinstance(n.targets[0], ast.Subscript) and dotted(n.targets[0].value) == "kwargs"
               and isinstance(n.targets[0].slice, ast.Constant) and n.targets[0].slice.value == "best_solution"]
+    ok, why = False, "best_solution is not replaced by its sign-restored version before the model is built"
     if len(stores) == 1:
-        e = stores[0].value
-        if isinstance(e, ast.Call) and isinstance(e.func, ast.Name) and e.func.id == "refine_best_solution" and len(e.args) == 2:
-            b = origin(init.node, e.args[0])
-            tt = origin(init.node, e.args[1])
-            if _kwargs_get(b, "best_solution") and _kwargs_get(tt, "task_type") and len(tt.args) > 1 \
-                    and dotted(tt.args[1]) == "TaskType.MIN":
-                # the store may only be guarded by `best_solution is not None`
-                from .model import parent
-                p = parent(stores[0])
-                if p is init.node:
-                    ok = True
-                elif isinstance(p, ast.If) and isinstance(p.test, ast.Compare) and isinstance(p.test.ops[0], ast.IsNot) \
-                        and isinstance(p.test.comparators[0], ast.Constant) and p.test.comparators[0].value is None \
-                        and _kwargs_get(origin(init.node, p.test.left), "best_solution"):
-                    ok = True
-                else:
-                    why = "the refinement of best_solution is conditional on something else than `is not None`"
-    res.ob(ok, f"{init.loc()} OptimizationResult.__init__ refines best_solution", "OptimizationResult.__init__")
+        from .model import parent
+        p = parent(stores[0])
+        if p is init.node:
+            ok = True
+        elif isinstance(p, ast.If) and isinstance(p.test, ast.Compare) and len(p.test.ops) == 1 and isinstance(p.test.ops[0], ast.IsNot) \
+                and isinstance(p.test.comparators[0], ast.Constant) and p.test.comparators[0].value is None \
+                and _kwargs_take(origin(init.node, p.test.left), "best_solution") and parent(p) is init.node:
+            ok = True
+        elif isinstance(p, ast.If) and parent(p) is init.node and isinstance(p.test, ast.Name) \
+                and _kwargs_take(origin(init.node, p.test), "best_solution"):
+            ok = True
+        else:
+            why = "the restoration of best_solution is conditional on something else than `best_solution is not None`"
+    res.ob(ok, f"{init.loc()} OptimizationResult.__init__ restores best_solution whenever one is given", "OptimizationResult.__init__")
     if not ok:
         res.add(Finding(prop, f"{prop}.PKG-result", "models.OptimizationResult.__init__::refine", init.loc(), why))
 
